@@ -1,11 +1,11 @@
 (* C11 - Exact arithmetic: outcomes invariant under vote scaling, even beyond 2^53.
    Property theorems only.  Models: Model/GetNBest.v, Model/HighestAverages.v, Model/Condorcet.v,
    Model/QuotaDistributor.v, Model/STV.v; proofs: Proofs/Scale_proofs.v, Proofs/Minimax_proofs.v, Proofs/LRScale_proofs.v,
-   Proofs/STVScale_proofs.v.  All numbers are unbounded Z / Q: the statements quantify over
+   Proofs/STVScale_proofs.v, Proofs/Schulze_proofs.v.  All numbers are unbounded Z / Q: the statements quantify over
    every positive scale factor and every magnitude (10^30 and 2^53 are not special). *)
 From Coq Require Import ZArith QArith List Bool.
 From VL Require Import Prelude.PyDict Model.GetNBest Model.HighestAverages Model.Condorcet
-     Proofs.GetNBest_proofs Proofs.QOrd Proofs.Scale_proofs Proofs.Minimax_proofs Proofs.LRScale_proofs
+     Proofs.GetNBest_proofs Proofs.QOrd Proofs.Scale_proofs Proofs.Minimax_proofs Proofs.LRScale_proofs Proofs.Schulze_proofs
      Model.Quota Model.QuotaDistributor.
 From VL Require Model.Convert Model.STV Proofs.STVScale_proofs.
 Import ListNotations.
@@ -152,10 +152,23 @@ Example C11_stv_example :
   map snd (STV.t_counts t) = [[(1%positive, 1%Z)]; []; [(4%positive, 1%Z)]; []; []; [(2%positive, 1%Z)]].
 Proof. vm_compute. repeat split; reflexivity. Qed.
 
-(* clauses not yet proved for all inputs (decided per explored case by the metamorphic stream) *)
+(* Schulze: the whole Floyd-Warshall table of the scaled election is k times the table of the original one
+   (min and max commute with multiplication by a positive integer), so the path-win relation, the scores and the
+   ranking are unchanged - for every iteration order of the candidate set and every number of seats *)
+Theorem C11_scale_schulze_paths : forall (k : Z) v order, (0 < k)%Z ->
+  widest_paths (scalez k v) order = scalez k (widest_paths v order).
+Proof. intros k v order Hk. exact (widest_paths_scale k Hk v order). Qed.
+
+Theorem C11_scale_schulze : forall (k : Z) v order n, (0 < k)%Z ->
+  schulze (scalez k v) order n = schulze v order n.
+Proof. intros k v order n Hk. exact (schulze_scale k Hk v order n). Qed.
+
+(* the clause as it was stated before it was proved (order = the dictionary's candidate order) *)
 Definition C11_scale_full_statement : Prop :=
   forall (k : Z) v n, (0 < k)%Z ->
     schulze (scalez k v) (candidates v) n = schulze v (candidates v) n.
+Theorem C11_scale_full : C11_scale_full_statement.
+Proof. intros k v n Hk. exact (schulze_scale k Hk v (candidates v) n). Qed.
 
 (* non-vacuity: a tie at the cut survives scaling by 10^30 + 7, and 10^30 vs 10^30 + 1 is not a tie *)
 Example C11_example :
@@ -163,6 +176,13 @@ Example C11_example :
     = [TieR [1%positive; 2%positive]] /\
   get_n_best Qle_bool [(1%positive, 1000000000000000000000000000000 # 1); (2%positive, 1000000000000000000000000000001 # 1)]%Q 1
     = [Cand 2%positive].
+Proof. vm_compute. split; reflexivity. Qed.
+
+(* non-vacuity for Schulze: a five-candidate election with a beat cycle, scaled by 10^30 + 7 *)
+Example C11_schulze_example :
+  schulze (scalez 1000000000000000000000000000007 mono_v) (candidates mono_v) 3
+    = [Cand 3%positive; Cand 2%positive; Cand 5%positive] /\
+  schulze mono_v (candidates mono_v) 3 = [Cand 3%positive; Cand 2%positive; Cand 5%positive].
 Proof. vm_compute. split; reflexivity. Qed.
 
 Print Assumptions C11_scale_plurality.
@@ -180,3 +200,6 @@ Print Assumptions C11_scale_stv_homogeneous.
 Print Assumptions C11_scale_stv.
 Print Assumptions C11_scale_stv_seats.
 Print Assumptions C11_stv_droop_not_scale_free.
+Print Assumptions C11_scale_schulze_paths.
+Print Assumptions C11_scale_schulze.
+Print Assumptions C11_scale_full.
